@@ -5,13 +5,13 @@
    compared with [crash], [resolve], [rerun]).  Vocabulary: C15/Spec.v.
 
    Each full-strength statement (for every oracle obeying the named YAML laws, every initial budget
-   shape, all file contents, every prefix k of the effect list and every cut n of the in-flight
-   write: no content lost /\ (the user's rules in force now \/ after re-running the command) /\
+   shape, all file contents, every prefix k of the effect list and every cut (j, n) of the open
+   file's buffered pieces - written text becomes durable at the Close step: no content lost /\ (the user's rules in force now \/ after re-running the command) /\
    never an empty rule set in force while the user's rules are on disk) is REFUTED on the faithful
    model, and the strongest guarded statement is proved:
      - content is never lost when no .bak / merchants.rules pre-exists (CSV), and never at all (layout);
      - the rules clauses hold at every interruption point before the CSV is moved and once
-       settings.yaml is complete (CSV), and everywhere except between "config/ moved" and
+       settings.yaml has been closed (CSV), and everywhere except between "config/ moved" and
        "data/ moved" when no directory gets nested (layout). *)
 From Coq Require Import String List Bool Arith.
 From Tally Require Import C15.Proofs.
@@ -22,10 +22,10 @@ Open Scope list_scope.
 (* ------------------------------------------------------------------------------------------------ *)
 (* CSV -> .rules migration, crash                                                                     *)
 Definition c15_csv_migration_crash_safe_statement : Prop :=
-  forall (O : oracle) (c : cmd) (s : option string) (c0 : string) (bk r : option string) (d0 : string) (k n : nat),
+  forall (O : oracle) (c : cmd) (s : option string) (c0 : string) (bk r : option string) (d0 : string) (k j n : nat),
     csv_pre O c s c0 r -> yaml_laws O s c0 ->
     let f0 := csv_budget s c0 bk r d0 in
-    let f1 := crash (mig_ops O c f0 []) k n f0 in
+    let f1 := crash (mig_ops O c f0 []) k j n f0 in
     let f2 := rerun O c f1 [] in
     csv_safe O f0 f1 f2 c0.
 
@@ -36,10 +36,10 @@ Proof. exact csv_crash_refuted. Qed.
 Print Assumptions c15_csv_migration_crash_safe_refuted.
 
 Theorem c15_csv_migration_crash_safe_partial :
-  forall (O : oracle) (c : cmd) (s : option string) (c0 : string) (bk r : option string) (d0 : string) (k n : nat),
+  forall (O : oracle) (c : cmd) (s : option string) (c0 : string) (bk r : option string) (d0 : string) (k j n : nat),
     csv_pre O c s c0 r -> yaml_laws O s c0 ->
     let f0 := csv_budget s c0 bk r d0 in
-    let f1 := crash (mig_ops O c f0 []) k n f0 in
+    let f1 := crash (mig_ops O c f0 []) k j n f0 in
     let f2 := rerun O c f1 [] in
     (bk = None -> r = None -> content_kept f0 f1 f2) /\
     (csv_crash_guard O s k = true -> csv_rules_safe O f1 f2 c0).
@@ -49,12 +49,12 @@ Print Assumptions c15_csv_migration_crash_safe_partial.
 (* ------------------------------------------------------------------------------------------------ *)
 (* CSV -> .rules migration, one step raises OSError                                                   *)
 Definition c15_csv_migration_fault_safe_statement : Prop :=
-  forall (O : oracle) (c : cmd) (s : option string) (c0 : string) (bk r : option string) (d0 : string) (k n : nat),
+  forall (O : oracle) (c : cmd) (s : option string) (c0 : string) (bk r : option string) (d0 : string) (k j n : nat),
     csv_pre O c s c0 r -> yaml_laws O s c0 ->
     let f0 := csv_budget s c0 bk r d0 in
     k < length (mig_ops O c f0 []) ->
-    let g := crash (mig_ops O c f0 []) k n f0 in
-    let f1 := after_fault O c f0 [] k n in
+    let g := crash (mig_ops O c f0 []) k j n f0 in
+    let f1 := after_fault O c f0 [] k j n in
     let f2 := rerun O c f1 [] in
     csv_safe O f0 f1 f2 c0 /\ inrun_safe O c g c0.
 
@@ -65,12 +65,12 @@ Proof. exact csv_fault_refuted. Qed.
 Print Assumptions c15_csv_migration_fault_safe_refuted.
 
 Theorem c15_csv_migration_fault_safe_partial :
-  forall (O : oracle) (c : cmd) (s : option string) (c0 : string) (bk r : option string) (d0 : string) (k n : nat),
+  forall (O : oracle) (c : cmd) (s : option string) (c0 : string) (bk r : option string) (d0 : string) (k j n : nat),
     csv_pre O c s c0 r -> yaml_laws O s c0 ->
     let f0 := csv_budget s c0 bk r d0 in
     k < length (mig_ops O c f0 []) ->
-    let g := crash (mig_ops O c f0 []) k n f0 in
-    let f1 := after_fault O c f0 [] k n in
+    let g := crash (mig_ops O c f0 []) k j n f0 in
+    let f1 := after_fault O c f0 [] k j n in
     let f2 := rerun O c f1 [] in
     (bk = None -> r = None -> content_kept f0 f1 f2) /\
     (csv_fault_guard O c s k = true -> csv_rules_safe O f1 f2 c0 /\ inrun_safe O c g c0).
@@ -80,13 +80,13 @@ Print Assumptions c15_csv_migration_fault_safe_partial.
 (* further witnesses of the refuted statement, one per distinct defect *)
 Theorem c15_csv_existing_backup_overwritten :
   let f0 := csv_budget (Some "s") "c" (Some "b") None "d" in
-  no_loss f0 (crash (mig_ops Ow Up f0 []) 4 0 f0) = false.
+  no_loss f0 (crash (mig_ops Ow Up f0 []) 4 0 0 f0) = false.
 Proof. exact w_backup_overwritten. Qed.
 Print Assumptions c15_csv_existing_backup_overwritten.
 
 Theorem c15_csv_existing_rules_overwritten :
   let f0 := csv_budget (Some "s") "c" None (Some "r") "d" in
-  no_loss f0 (crash (mig_ops Ow Up f0 []) 1 0 f0) = false.
+  no_loss f0 (crash (mig_ops Ow Up f0 []) 1 0 0 f0) = false.
 Proof. exact w_rules_overwritten. Qed.
 Print Assumptions c15_csv_existing_rules_overwritten.
 
@@ -94,7 +94,7 @@ Print Assumptions c15_csv_existing_rules_overwritten.
    settings.yaml raises, the disk is complete, yet this run classifies with nothing) *)
 Theorem c15_csv_failed_run_uses_moved_csv :
   let f0 := csv_budget (Some "s") "c" None None "d" in
-  let g := crash (mig_ops Ow Up f0 []) 7 0 f0 in
+  let g := crash (mig_ops Ow Up f0 []) 7 2 0 f0 in
   stranded Ow "c" (up_inrun_after_fault g cd0) g = true /\ resolve Ow g cd0 = INew "K".
 Proof. exact w_failed_run_uses_moved_csv. Qed.
 Print Assumptions c15_csv_failed_run_uses_moved_csv.
@@ -103,10 +103,10 @@ Print Assumptions c15_csv_failed_run_uses_moved_csv.
 (* folder-layout migration                                                                            *)
 Definition c15_layout_migration_crash_safe_statement : Prop :=
   forall (O : oracle) (s0 r0 : string) (d rep : option string) (t : bool) (tc : option (string * string)) (td : bool)
-         (k n : nat),
+         (k j n : nat),
     layout_pre O s0 tc ->
     let f0 := layout_budget s0 r0 d rep t tc td in
-    let f1 := crash (update_ops O f0) k n f0 in
+    let f1 := crash (update_ops O f0) k j n f0 in
     let f2 := update_rerun O f1 in
     layout_safe O f0 f1 f2 r0.
 
@@ -119,10 +119,10 @@ Print Assumptions c15_layout_migration_crash_safe_refuted.
 
 Theorem c15_layout_migration_crash_safe_partial :
   forall (O : oracle) (s0 r0 : string) (d rep : option string) (t : bool) (tc : option (string * string)) (td : bool)
-         (k n : nat),
+         (k j n : nat),
     mf O s0 = MfKey [Aconfig; Arules] ->
     let f0 := layout_budget s0 r0 d rep t tc td in
-    let f1 := crash (update_ops O f0) k n f0 in
+    let f1 := crash (update_ops O f0) k j n f0 in
     let f2 := update_rerun O f1 in
     content_kept f0 f1 f2 /\ (layout_guard d tc td k = true -> layout_rules_safe O f0 f1 f2 r0).
 Proof. exact layout_crash_partial. Qed.
@@ -132,11 +132,11 @@ Print Assumptions c15_layout_migration_crash_safe_partial.
    migrate_v0_to_v1 returns None) *)
 Definition c15_layout_migration_fault_safe_statement : Prop :=
   forall (O : oracle) (s0 r0 : string) (d rep : option string) (t : bool) (tc : option (string * string)) (td : bool)
-         (k n : nat),
+         (k j n : nat),
     layout_pre O s0 tc ->
     let f0 := layout_budget s0 r0 d rep t tc td in
     k < length (update_ops O f0) ->
-    let f1 := crash (update_ops O f0) k n f0 in
+    let f1 := crash (update_ops O f0) k j n f0 in
     let f2 := update_rerun O f1 in
     layout_safe O f0 f1 f2 r0.
 
@@ -146,11 +146,11 @@ Print Assumptions c15_layout_migration_fault_safe_refuted.
 
 Theorem c15_layout_migration_fault_safe_partial :
   forall (O : oracle) (s0 r0 : string) (d rep : option string) (t : bool) (tc : option (string * string)) (td : bool)
-         (k n : nat),
+         (k j n : nat),
     mf O s0 = MfKey [Aconfig; Arules] ->
     let f0 := layout_budget s0 r0 d rep t tc td in
     k < length (update_ops O f0) ->
-    let f1 := crash (update_ops O f0) k n f0 in
+    let f1 := crash (update_ops O f0) k j n f0 in
     let f2 := update_rerun O f1 in
     content_kept f0 f1 f2 /\ (layout_guard d tc td k = true -> layout_rules_safe O f0 f1 f2 r0).
 Proof. exact layout_fault_partial. Qed.
@@ -160,7 +160,7 @@ Print Assumptions c15_layout_migration_fault_safe_partial.
    config below it: afterwards the other budget's rules are in force *)
 Theorem c15_layout_existing_target_nests :
   let f0 := layout_budget "n" "r" None None true (Some ("m", "q")) false in
-  let f1 := crash (update_ops Ow f0) 9 0 f0 in
+  let f1 := crash (update_ops Ow f0) 9 0 0 f0 in
   fst (resolve_layout Ow f0) = INew "r" /\ fst (resolve_layout Ow f1) = INew "q" /\
   content_at f1 [Atally; Aconfig; Aconfig; Arules] = Some "r".
 Proof. exact w_layout_nests. Qed.
@@ -179,13 +179,13 @@ Example c15_example_csv :
      OpenAppend [Aconfig; Asettings]; Write [Aconfig; Asettings] "1"; Write [Aconfig; Asettings] "2";
      Close [Aconfig; Asettings]] /\
   resolve Ow f0 cd0 = ICsv "c" /\
-  resolve Ow (crash (mig_ops Ow Up f0 []) 8 0 f0) cd0 = INew "K" /\
-  resolve Ow (crash (mig_ops Ow Up f0 []) 4 0 f0) cd0 = INone /\
-  resolve Ow (rerun Ow Up (crash (mig_ops Ow Up f0 []) 2 0 f0) []) cd0 = INew "K".
+  resolve Ow (crash (mig_ops Ow Up f0 []) 8 0 0 f0) cd0 = INew "K" /\
+  resolve Ow (crash (mig_ops Ow Up f0 []) 4 0 0 f0) cd0 = INone /\
+  resolve Ow (rerun Ow Up (crash (mig_ops Ow Up f0 []) 2 0 0 f0) []) cd0 = INew "K".
 Proof. vm_compute. repeat split; intros; reflexivity. Qed.
 
 Example c15_example_init_without_settings :
-  csv_pre Ow Init None "c" None /\ yaml_laws Ow None "c" /\ csv_crash_guard Ow None 2 = true /\
+  csv_pre Ow Init None "c" None /\ yaml_laws Ow None "c" /\ csv_crash_guard Ow None 3 = true /\
   let f0 := csv_budget None "c" None None "d" in
   length (mig_ops Ow Init f0 []) = 4 /\
   resolve Ow f0 cd0 = IErr /\ resolve Ow (rerun Ow Init f0 []) cd0 = INew "K".
@@ -198,6 +198,6 @@ Example c15_example_layout :
     [Mkdir [Atally]; Move [Aconfig] [Atally; Aconfig]; Move [Adata] [Atally; Adata]; Move [Aoutput] [Atally; Aoutput];
      OpenTrunc [Atally; Aconfig; Aschema]; Write [Atally; Aconfig; Aschema] "1e"; Close [Atally; Aconfig; Aschema]] /\
   resolve_layout Ow f0 = (INew "r", Some "d") /\
-  resolve_layout Ow (crash (update_ops Ow f0) 7 0 f0) = (INew "r", Some "d") /\
-  resolve_layout Ow (crash (update_ops Ow f0) 2 0 f0) = (INew "r", None).
+  resolve_layout Ow (crash (update_ops Ow f0) 7 0 0 f0) = (INew "r", Some "d") /\
+  resolve_layout Ow (crash (update_ops Ow f0) 2 0 0 f0) = (INew "r", None).
 Proof. vm_compute. repeat split; reflexivity. Qed.
